@@ -952,6 +952,8 @@ pub struct ExprCase {
 fn tricky_expressions() -> Vec<&'static str> {
     vec![
         "echo plain",
+        "IFS=3; (exit 30)",
+        "IFS=0123456789; echo digits-in-ifs; (exit 42)",
         "set -e; unset OLDPWD; echo errexit-without-oldpwd",
         "set -eu; echo errexit-nounset",
         "cd /; unset OLDPWD; set -e; echo still-zero",
